@@ -884,3 +884,23 @@ Check line_convert_sound_script_partial. Check line_convert_plain_class.
 Check line_convert_tombstone_witnesses.
 Check line_convert_sound_script.
 Check line_convert_is_replay. Check line_convert_replay_is_script. Check line_convert_emits_meaning.
+
+(* ---- follow-up: two conjuncts of C13's script_ok derived for the event script (Proofs/ConvertLineInv.v): the private
+   row's line register stays below 2^64 and, for maximum_operations_per_instruction = 1, its op_index stays 0 — an
+   invariant of LineRow::execute and reset threaded through read_row; so every Row event of the iteration started
+   from ConvertLineProgram::new's state has line < 2^64 and (max_ops = 1) op_index = 0. Any bytes, both build modes. *)
+Require GV.Proofs.ConvertLineInv.
+Theorem line_convert_events_lines_bounded : forall dbg be sx h c,
+  ConvertLine.cl_row c = LineRd.row_new h ->
+  Forall (ConvertLineInv.ev_ok h) (fst (fst (ConvertLine.events dbg be sx h c))).
+Proof. exact ConvertLineInv.events_rows_bounded. Qed.
+Theorem line_convert_events_op_index_zero : forall dbg be sx h c w,
+  ConvertLine.cl_row c = LineRd.row_new h -> LineSpec.h_max_ops h = 1 ->
+  In (ConvertLine.CRRow w) (fst (fst (ConvertLine.events dbg be sx h c))) ->
+  LineWr.w_op_index w = 0 /\ LineWr.w_line w < two64.
+Proof.
+  intros dbg be sx h c w E M Hin.
+  pose proof (ConvertLineInv.events_rows_bounded dbg be sx h c E) as F.
+  rewrite Forall_forall in F. destruct (F _ Hin) as [A B]. split; [exact (B M)|exact A].
+Qed.
+Check line_convert_events_lines_bounded. Check line_convert_events_op_index_zero.
